@@ -9,11 +9,19 @@ on real katdal.categorical.CategoricalData objects and on the Lean model (compil
     strictly increasing event boundaries ending at the number of dumps, indices inside the unique values and
     pairwise distinct unique values.  A different but equivalent representation (order of unique_values,
     unused unique values) is only logged.
-A separate NaN stream checks well-formedness only (NaN != NaN breaks the equivalence assumption).
+Float alphabets ('float' plain, 'wfloat' wrapped in ComparableArrayWrapper) mix ordinary floats (-inf .. inf) with
+several NaN *objects*.  A value code stands for a number (even) or for one NaN object (odd); equal codes = the same
+object, which is what Python's dict / list.index / `in` call the same value, while ==, <, ... follow IEEE (a NaN is
+unordered with everything).  The driver runs these cases in `seqf` mode (NaN-aware mirrors, Model Part 4); the
+comparison operators are judged three ways: real katdal == Lean spec side (IEEE relation on the per-dump list) ==
+Python's own float comparison applied to the explicit per-dump list element by element.
+A separate NaN stream checks well-formedness only for NaN inside arrays / numpy scalars.
 """
 import copy
 import json
+import operator
 import os
+import re
 
 import numpy as np
 
@@ -30,13 +38,22 @@ RULE = ('cases = (well-formed series of 1-12 dumps, 1-6 events, first event at d
         'concatenate_categorical(parts, allow_repeats), concatenation of two copies). Arguments are chosen from the '
         'current state of the series (in range, on boundaries, one past the end, unknown values). '
         'non-trivial = at least one mutator or multi-dump query ran without error on a series with >= 2 events; '
-        'distinct = hash of the encoded operation sequence plus alphabet. NaN stream: series containing NaN '
-        '(same object / distinct objects / inside arrays), well-formedness only.')
+        'distinct = hash of the encoded operation sequence plus alphabet. Float stream: the same generator over the '
+        'alphabets float / wfloat = 1-3 of the numbers -inf, -1.5, 0.0, 2.5, inf plus 0-2 of five NaN objects (three '
+        'Python floats, np.nan, one np.float64), plain or wrapped in ComparableArrayWrapper, comparison operands '
+        'plain or wrapped, numbers or NaN (present in the series or not), comparison operators drawn three times as '
+        'often; value identity = same object for NaN, == for numbers; query answers are compared by class (number / '
+        'NaN). The tags nan:* give the number of cases with NaN in the series and, per operator, with NaN in the '
+        'series / as operand / both / neither. NaN stream: series containing NaN (same object / distinct objects / '
+        'numpy scalar / inside arrays), well-formedness only.')
 TRUSTED = ['Lean 4.33 kernel', 'axioms: propext, Classical.choice, Quot.sound only',
            'hand-written mirror KatdalModel/Model/Categorical.lean (Part 3) tied to /repo by this differential run',
            'value equality: Python == (ComparableArrayWrapper.__eq__), hashing and dask tokenize are modelled as one '
            'decidable equality on value codes (NaN excluded, tested separately)',
-           'ordering comparisons use alphabets whose Python order is the order of the codes']
+           'ordering comparisons use alphabets whose Python order is the order of the codes',
+           'float alphabets: a NaN object is one value (identity, as dict / list.index / the constructor treat it); '
+           'comparisons, remove and the lookup in add follow IEEE == (FV.cmp); the expected comparison answers are '
+           'also computed by Python float comparison on the explicit per-dump list']
 CHECKER = 'lake build KatdalModel.Props.C11 kd_c11 && lake env lean <#print axioms audit>'
 
 ORDERED = {'str', 'int', 'tuple', 'wstr'}     # alphabets re-sorted below so that code order = Python order
@@ -46,19 +63,60 @@ ALPHA11['wstr'] = sorted(ALPHA['wstr'])
 ALPHA11['int'] = sorted(ALPHA['int'])
 ALPHAS = ['str', 'str', 'int', 'tuple', 'arr', 'list', 'wstr']
 
+# float alphabets: code 2k = k-th number (ascending), code 2k+1 = k-th NaN object
+FLOATS = ('float', 'wfloat')
+NUMS = [float('-inf'), -1.5, 0.0, 2.5, float('inf')]
+NANS = [float('nan'), float('nan'), float('nan'), np.nan, np.float64('nan')]
+_FL = [None] * 10
+_FL[0::2] = NUMS
+_FL[1::2] = NANS
+ALPHA11['float'] = _FL
+ALPHA11['wfloat'] = _FL
+ORDERED |= set(FLOATS)
+WRAPPED11 = tuple(WRAPPED) + ('wfloat',)
+FLOAT_ALPHAS = ['float', 'float', 'float', 'wfloat']
+PYOP = {'eq': operator.eq, 'ne': operator.ne, 'lt': operator.lt, 'gt': operator.gt, 'le': operator.le,
+        'ge': operator.ge}
+
+
+def is_nan_code(alpha, code):
+    return alpha in FLOATS and code is not None and code % 2 == 1
+
+
+def cls(alpha, code):
+    """class of a value code as far as a query answer can show it: every NaN looks alike in an ndarray"""
+    return -1 if is_nan_code(alpha, code) else code
+
 
 def code11(alpha, obj):
     from katdal.categorical import ComparableArrayWrapper
     obj = ComparableArrayWrapper.unwrap(obj)
+    if alpha in FLOATS:
+        if isinstance(obj, (float, np.floating)) and obj != obj:
+            for c, o in enumerate(ALPHA11[alpha]):      # a NaN is the object it is
+                if o is obj:
+                    return c
+            return None
+        for c, o in enumerate(ALPHA11[alpha]):
+            if c % 2 == 0 and isinstance(obj, (float, np.floating, int)) and o == obj:
+                return c
+        return None
     for c, o in enumerate(ALPHA11[alpha]):
         if values_equal(o, obj):
             return c
     return None
 
 
+def class_of(alpha, obj):
+    """code of a number, -1 for any NaN (query answers come back through np.array: the NaN object is gone)"""
+    if alpha in FLOATS and isinstance(obj, (float, np.floating)) and obj != obj:
+        return -1
+    return code11(alpha, obj)
+
+
 def wrap(alpha, obj):
     from katdal.categorical import ComparableArrayWrapper
-    return ComparableArrayWrapper(obj) if alpha in WRAPPED else obj
+    return ComparableArrayWrapper(obj) if alpha in WRAPPED11 else obj
 
 
 # ------------------------------------------------------------------ encoding
@@ -112,7 +170,8 @@ def enc_op(op):
 def request_line(case, uniq_idx_ev):
     u, i, e = uniq_idx_ev
     ops = [enc_op(op) for op in case['ops']]
-    return ' :: '.join([f'seq {enc_list(u)}|{enc_list(i)}|{enc_list(e)}'] + ops + ['perdump'])
+    mode = 'seqf' if case['alpha'] in FLOATS else 'seq'
+    return ' :: '.join([f'{mode} {enc_list(u)}|{enc_list(i)}|{enc_list(e)}'] + ops + ['perdump'])
 
 
 # ------------------------------------------------------------------ implementation side
@@ -141,8 +200,8 @@ class Impl:
     def decode_many(self, res):
         res = np.asarray(res)
         if res.ndim <= 1:
-            return [code11(self.alpha, v) for v in res.tolist()] if res.dtype != object else \
-                [code11(self.alpha, v) for v in res]
+            return [class_of(self.alpha, v) for v in res.tolist()] if res.dtype != object else \
+                [class_of(self.alpha, v) for v in res]
         out = []
         for row in res:
             found = None
@@ -158,7 +217,7 @@ class Impl:
 
     def run(self, op, as_array):
         """-> ('state', states) | ('one', code) | ('many', codes) | ('bools', list) ; raises on error"""
-        from katdal.categorical import concatenate_categorical
+        from katdal.categorical import ComparableArrayWrapper, concatenate_categorical
         o = op[0]
         if o == 'get':
             key = op[1]
@@ -174,6 +233,8 @@ class Impl:
             return ('many', self.decode_many(self.main[k]))
         if o == 'cmp':
             v = self.obj(op[2])
+            if self.alpha in FLOATS and as_array:
+                v = ComparableArrayWrapper(v)       # operand handed over wrapped
             m = self.main
             r = {'eq': lambda: m == v, 'ne': lambda: m != v, 'lt': lambda: m < v, 'gt': lambda: m > v,
                  'le': lambda: m <= v, 'ge': lambda: m >= v}[op[1]]()
@@ -280,6 +341,9 @@ def gen_op(rng, impl, codes, ncodes):
         if q < 0.85 and present:
             return ('premove', k, rng.choice(present + [rng.randrange(ncodes)]))
         return ('prr', k)
+    if impl.alpha in FLOATS and rng.random() < 0.22:
+        return ('cmp', rng.choice(['eq', 'ne', 'lt', 'gt', 'le', 'ge']),
+                rng.choice(codes + present + [rng.randrange(ncodes)]))
     if r < 0.22:
         return ('get', gen_key(rng, N))
     if r < 0.34:
@@ -302,10 +366,14 @@ def gen_op(rng, impl, codes, ncodes):
     return ('dup',)
 
 
-def gen_case(rng):
-    alpha = rng.choice(ALPHAS)
+def gen_case(rng, alphas=ALPHAS):
+    alpha = rng.choice(alphas)
     ncodes = len(ALPHA11[alpha])
-    codes = rng.sample(range(ncodes), min(ncodes, rng.randint(2, 4)))
+    if alpha in FLOATS:
+        codes = [2 * k for k in rng.sample(range(len(NUMS)), rng.randint(1, 3))] + \
+                [2 * k + 1 for k in rng.sample(range(len(NANS)), rng.choice([0, 1, 1, 1, 2, 2]))]
+    else:
+        codes = rng.sample(range(ncodes), min(ncodes, rng.randint(2, 4)))
     N = rng.randint(1, 12)
     n = rng.randint(1, min(6, N))
     first = 0 if rng.random() < 0.88 else rng.randint(0, N - n)
@@ -356,7 +424,14 @@ def per_dump(state):
     return out
 
 
-def wf_problem(state):
+def distinct_problem(state):
+    u = state[0]
+    if len(set(u)) != len(u):
+        return f'unique values are not distinct: {u}'
+    return None
+
+
+def wf_problem(state, distinct=True):
     u, i, e = state
     if any(b <= a for a, b in zip(e[:-1], e[1:])):
         return f'event boundaries {e} are not strictly increasing'
@@ -366,9 +441,17 @@ def wf_problem(state):
         return f'indices {i} outside unique values {u}'
     if any(c is None for c in u):
         return f'unique values contain a value that never entered the series: {u}'
-    if len(set(u)) != len(u):
-        return f'unique values are not distinct: {u}'
-    return None
+    return distinct_problem(state) if distinct else None
+
+
+def nan_only_duplicates(alpha, what):
+    """the text reports unique values that are not distinct and every repeated entry is a NaN code"""
+    m = re.search(r'unique values are not distinct: \[([0-9, ]*)\]$', what)
+    if alpha not in FLOATS or not m:
+        return False
+    u = [int(x) for x in m.group(1).split(',') if x.strip()]
+    rep = {c for c in u if u.count(c) > 1}
+    return bool(rep) and all(c % 2 == 1 for c in rep)
 
 
 def parse_state(s):
@@ -401,19 +484,27 @@ def resolve_key(key, N):
 MUTATORS = ('add', 'remove', 'addun', 'align', 'rr', 'part', 'padd', 'premove', 'prr', 'concat', 'dup')
 
 
-def judge(ctx, case, init, impl_res, model_replies, tags):
-    """-> violation text or None.  model_replies: one per op, then the final `perdump`."""
+def judge(ctx, case, init, impl_res, model_replies, tags, dup_reported=False):
+    """-> list of violation texts.  model_replies: one per op, then the final `perdump`.
+    A NaN object entered twice into the unique values (float alphabets) is reported once per case, at the
+    operation where it first shows, and the sequence is judged on (every other check stays in force)."""
+    out = []
     cur_pd = per_dump(init)       # spec side: per-dump list of the model's main series before each op
     model_states = [[init]]
     for k, op in enumerate(case['ops']):
         v = judge_op(ctx, case, init, impl_res, model_replies, tags, k, op, cur_pd, model_states)
         if v == 'STOP':
-            return None
-        if v:
-            return f'op#{k}: {v}'
+            return out
+        if v and nan_only_duplicates(case['alpha'], v):
+            if not dup_reported:
+                out.append(f'op#{k}: {v}')
+                dup_reported = True
+        elif v:
+            out.append(f'op#{k}: {v}')
+            return out
         if op[0] in MUTATORS:
             cur_pd = per_dump(model_states[-1][0])
-    return None
+    return out
 
 
 def judge_op(ctx, case, init, impl_res, model_replies, tags, k, op, cur_pd, model_states):
@@ -451,15 +542,22 @@ def judge_op(ctx, case, init, impl_res, model_replies, tags, k, op, cur_pd, mode
             got = [impl_res[k][1]] if kind == 'one' else impl_res[k][1]
             if (kind == 'one') != (op[1][0] == 'i'):
                 return f'{enc_op(op)} returned a {"scalar" if kind == "one" else "sequence"}'
+            m = [int(mrep[2:])] if mrep.startswith('o:') else ([] if mrep[2:] == '-' else [int(x) for x in mrep[2:].split(',')])
+            if kind != 'one':      # a sequence comes back as an ndarray: a NaN no longer is the object it was
+                want = [cls(case['alpha'], x) for x in want]
+                m = [cls(case['alpha'], x) for x in m]
+            if case['alpha'] in FLOATS and any(is_nan_code(case['alpha'], x) or x == -1 for x in want):
+                tags.add('nan:get-returns-nan')
             if got != want:
                 return f'{enc_op(op)} returned {got}, the per-dump list gives {want}'
-            m = [int(mrep[2:])] if mrep.startswith('o:') else ([] if mrep[2:] == '-' else [int(x) for x in mrep[2:].split(',')])
             if m != want:
                 ctx.advise(f'mirror getitem {mrep} differs from its own per-dump list {want}')
             return None
         if o == 'cmp':
             if kind == 'err':
                 return f'{enc_op(op)} raised {impl_res[k][1]}'
+            if case['alpha'] in FLOATS:
+                return judge_float_cmp(ctx, case, op, cur_pd, impl_res[k][1], mrep, tags)
             v = op[2]
             f = {'eq': lambda x: x == v, 'ne': lambda x: x != v, 'lt': lambda x: x < v, 'gt': lambda x: x > v,
                  'le': lambda x: x <= v, 'ge': lambda x: x >= v}[op[1]]
@@ -482,17 +580,50 @@ def judge_op(ctx, case, init, impl_res, model_replies, tags, k, op, cur_pd, mode
         istates = impl_res[k][1]
         if len(istates) != len(mstates):
             return f'{enc_op(op)} left {len(istates) - 1} parts, expected {len(mstates) - 1}'
+        dup = None
         for which, (ist, mst) in enumerate(zip(istates, mstates)):
             name = 'series' if which == 0 else f'part {which - 1}'
-            p = wf_problem(ist)
+            p = wf_problem(ist, distinct=False)
             if p:
                 return f'after {enc_op(op)} the {name} is malformed: {p}'
             if per_dump(ist) != per_dump(mst):
                 return (f'after {enc_op(op)} the per-dump values of the {name} are {per_dump(ist)}, '
                         f'documented behaviour gives {per_dump(mst)}')
+            q = distinct_problem(ist)
+            if q and not nan_only_duplicates(case['alpha'], q):
+                return f'after {enc_op(op)} the {name} is malformed: {q}'
+            if q and dup is None:
+                dup = f'after {enc_op(op)} the {name} is malformed: {q}'
             if ist != mst:
                 tags.add('representation-differs(advisory)')
+            elif case['alpha'] in FLOATS and o in ('add', 'padd', 'remove', 'premove', 'concat'):
+                tags.add('nan:mirror-state-identical-' + o)
         model_states.append(mstates)
+        return dup
+    return None
+
+
+def judge_float_cmp(ctx, case, op, cur_pd, got, mrep, tags):
+    """comparison on a float series: implementation == Lean spec side == Python floats compared dump by dump"""
+    alpha, name, v = case['alpha'], op[1], op[2]
+    if '/' not in mrep:
+        raise common.Broken(f'driver reply {mrep!r} to {enc_op(op)} in float mode')
+    mirror, spec = [[None if ch == '_' else ch == '1' for ch in ('' if part == '-' else part)]
+                    for part in mrep.split('/')]
+    objs = ALPHA11[alpha]
+    python = [None if x is None else bool(PYOP[name](objs[x], objs[v])) for x in cur_pd]
+    if mirror != spec or spec != python:
+        raise common.Broken(f'{enc_op(op)} on per-dump list {cur_pd}: Lean mirror {mirror}, Lean spec {spec}, '
+                            f'Python floats {python}')
+    series_nan = any(is_nan_code(alpha, x) for x in cur_pd)
+    operand_nan = is_nan_code(alpha, v)
+    tags.add(f"nan:cmp-{name}:" + ('both' if series_nan and operand_nan else 'series-nan' if series_nan
+                                   else 'operand-nan' if operand_nan else 'none'))
+    ctx.extra.setdefault('nan_comparisons', {}).setdefault(name, {'nan_involved': 0, 'numbers_only': 0})[
+        'nan_involved' if series_nan or operand_nan else 'numbers_only'] += 1
+    if len(got) != len(spec) or any(w is not None and g != w for g, w in zip(got, spec)):
+        return (f'{enc_op(op)} returned {got}, comparing the per-dump list {cur_pd} element by element gives '
+                f'{spec} (codes: even = number by rank, odd = NaN)')
     return None
 
 
@@ -508,15 +639,22 @@ def evaluate(ctx, cases, count=True):
     for c, init, res, line, rep in zip(cases, inits, impls, lines, replies):
         tags = {'alpha-' + c['alpha']}
         if init is None:
-            v = f'constructor raised {res[0][1]}'
+            vs = [f'constructor raised {res[0][1]}']
         else:
-            if wf_problem(init):
-                v = 'constructor: ' + wf_problem(init)
+            if c['alpha'] in FLOATS:
+                tags.add('nan:series-with-nan' if any(is_nan_code(c['alpha'], x) for x in c['vals'])
+                         else 'nan:series-without-nan')
+            q = distinct_problem(init)
+            if wf_problem(init, distinct=False):
+                vs = ['constructor: ' + wf_problem(init, distinct=False)]
             elif per_dump(init)[init[2][0]:] != [x for a, b, x in zip(init[2][:-1], init[2][1:], c['vals'])
                                                  for _ in range(b - a)]:
-                v = f'constructor: per-dump values {per_dump(init)} differ from the given values'
+                vs = [f'constructor: per-dump values {per_dump(init)} differ from the given values']
+            elif q and not nan_only_duplicates(c['alpha'], q):
+                vs = ['constructor: ' + q]
             else:
-                v = judge(ctx, c, init, res, rep.split(' :: '), tags)
+                vs = (['constructor: ' + q] if q else []) + \
+                    judge(ctx, c, init, res, rep.split(' :: '), tags, dup_reported=bool(q))
         if count:
             ctx.tag(*sorted(tags))
             ran = [r for r in res if r[0] != 'err']
@@ -524,7 +662,7 @@ def evaluate(ctx, cases, count=True):
                 op[0] in MUTATORS or (op[0] == 'get' and op[1][0] != 'i') for op, r in zip(c['ops'], ran))
             ctx.count((line, c['alpha']), nontriv, sample={'request': line[:300], 'alphabet': c['alpha'],
                                                            'model': rep[:300]})
-        if v:
+        for v in vs:
             bad.append((c, v))
     return bad
 
@@ -650,7 +788,35 @@ def m_shared_unique_values(case, what):
     return 'premove' in ops[parts_since + 1:k + 1] and ops[k] in ('premove', 'concat', 'padd', 'prr')
 
 
-MATCHERS = {'c11_partition_shares_unique_values': m_shared_unique_values}
+def m_nan_entered_twice(case, what):
+    """known finding: a NaN object that is compared through a fresh ComparableArrayWrapper never equals itself, so
+    add(event, that NaN) and concatenate_categorical(parts sharing that NaN) - and the constructor, when the
+    values come wrapped - enter the same object a second time into unique_values.  Recognised: float alphabets
+    only, the only repeated unique values are NaN codes, first seen at a concat / at an add of that very NaN / at
+    the constructor of a wrapped series that was given that NaN more than once."""
+    if case.get('kind') != 'seq' or case.get('alpha') not in FLOATS or not nan_only_duplicates(case['alpha'], what):
+        return False
+    u = [int(x) for x in re.search(r'\[([0-9, ]*)\]$', what).group(1).split(',')]
+    rep = {c for c in u if u.count(c) > 1}
+    if what.startswith('constructor: '):
+        return case['alpha'] == 'wfloat' and all(case['vals'].count(c) > 1 for c in rep)
+    m = re.match(r'op#(\d+): after (\w+) ', what)
+    if not m or int(m.group(1)) >= len(case['ops']):
+        return False
+    op = case['ops'][int(m.group(1))]
+    if op[0] != m.group(2):
+        return False
+    if op[0] == 'concat':
+        return True
+    if op[0] == 'add':
+        return op[2] is not None and rep == {op[2]}
+    if op[0] == 'padd':
+        return op[3] is not None and rep == {op[3]}
+    return False
+
+
+MATCHERS = {'c11_partition_shares_unique_values': m_shared_unique_values,
+            'c11_nan_entered_twice': m_nan_entered_twice}
 
 
 def norm_case(c):
@@ -672,15 +838,18 @@ def run(ctx):
     n = ctx.q(4000, 60000)
     cases = corpus_cases() + [gen_case(ctx.rng) for _ in range(n)]
     bad = evaluate(ctx, cases)
+    bad += evaluate(ctx, [gen_case(ctx.rng, FLOAT_ALPHAS) for _ in range(ctx.q(1800, 27000))])
     bad += nan_stream(ctx, ctx.q(300, 5000))
     if not bad and not build['build_ok']:
-        bad += evaluate(ctx, [gen_case(ctx.rng) for _ in range(10 * n)])
+        bad += evaluate(ctx, [gen_case(ctx.rng, ALPHAS + FLOAT_ALPHAS) for _ in range(10 * n)])
     for c, v in bad:
         ctx.violation(c, v)
     ctx.assumptions = ['series start well-formed (strictly increasing events, one value per event)',
                        'arguments inside the documented domain: dumps and events are non-negative, an added event '
                        'lies before the number of dumps, segments are increasing',
-                       'distinct value codes are realised by Python objects that compare unequal (no NaN)',
+                       'distinct value codes are realised by Python objects that compare unequal; in the float '
+                       'alphabets one code = one number or one NaN object (a NaN is the same value as itself and '
+                       'no other, as for dict keys and list.index), comparisons follow IEEE',
                        'the state after an exception is not examined']
     return common.finish(ctx, build, RULE, CHECKER, TRUSTED, shrink=lambda c, w: shrink(ctx, c, w))
 
